@@ -78,6 +78,17 @@ func (w *writer) doc(indent int, style, what string) string {
 
 func (w *writer) text() string { return strings.Join(w.lines, "\n") + "\n" }
 
+// weatherJMF is the value of java_multiple_files in weather.proto ("same" / "different" are relative to it).
+func optionValueFor(ws workspace, slot, variant string) string {
+	if slot == "types_java_multiple_files" && ws["weather_jmf"] == "false" {
+		if variant == "different" {
+			return "true"
+		}
+		return "false"
+	}
+	return optionValue(slot, variant)
+}
+
 func optionValue(slot, variant string) string {
 	name := strings.TrimPrefix(slot, "types_")
 	base := map[string]string{
@@ -146,7 +157,7 @@ func render(ws workspace) (map[string]string, map[string]pos) {
 	w.ln(0, t(""))
 	for _, slot := range pkgOptionSlots {
 		name := strings.TrimPrefix(slot, "types_")
-		w.ln(0, a(fmt.Sprintf("option %s = %s;", name, optionValue(slot, "same")), "option:"+slot+"@decl"))
+		w.ln(0, a(fmt.Sprintf("option %s = %s;", name, optionValueFor(ws, slot, "same")), "option:"+slot+"@decl"))
 	}
 	w.ln(0, t(""))
 	msg := ws["msg_name"]
@@ -247,7 +258,7 @@ func render(ws workspace) (map[string]string, map[string]pos) {
 			continue
 		}
 		name := strings.TrimPrefix(slot, "types_")
-		w.ln(0, a(fmt.Sprintf("option %s = %s;", name, optionValue(slot, ws[slot])), "option:"+slot+"@decl"))
+		w.ln(0, a(fmt.Sprintf("option %s = %s;", name, optionValueFor(ws, slot, ws[slot])), "option:"+slot+"@decl"))
 	}
 	w.ln(0, t(""))
 	w.ln(0, t("// The unit is documented."))
